@@ -1945,3 +1945,95 @@ def r19_6(ctx):
     ctx.need(pqs, "dns::Socket::process")
     if n == 0:
         ctx.ok(('dns::process', 'question not rewritten'), sample=dict(fn='dns::Socket::process', writes_to_PendingQuery_name=0))
+
+
+@rule('R14.9', ['C14', 'C09'], floor=2, clause='a refused PacketBuffer enqueue leaves both rings untouched: once a metadata slot or payload space has been taken (padding included), the call can no longer answer Err(Full)')
+def r14_9(ctx):
+    from .c14 import err_sites
+    F = ctx.F
+    PB = 'storage::packet_buffer::PacketBuffer'
+    RB = 'storage::ring_buffer::RingBuffer'
+    for fn in ('enqueue', 'enqueue_with_infallible'):
+        b = ctx.method(PB, fn)
+        errs = set(err_sites(b))
+        ctx.need(errs, f"Err(Full) returns of PacketBuffer::{fn}")
+        starts = []
+        for x in b.calls():
+            nm = b.callee_name(x[1]) or ''
+            if nm.startswith(RB) and nm.rsplit('::', 1)[-1] in ('enqueue_many', 'enqueue_slice', 'enqueue_many_with') and x[4] is not None:
+                starts.append((x[0], x[4]))
+        took = lambda f: f[0] == 'is' and f[2] in ('Continue', 'Ok') and any(l.startswith('C:' + RB) and l.rsplit('::', 1)[-1].startswith('enqueue_one') for l in leafs(f[1]))
+        for (bi, tb, lab) in guard_edges(F, b, took):
+            starts.append((bi, tb))
+        ctx.need(starts, f"ring mutations in PacketBuffer::{fn}")
+        # Err edges of `metadata_ring.enqueue_one()?` are infeasible where a free slot is known: a small forward data-flow of
+        # "free metadata slots >= L" (guards `!is_full()` -> 1, `window() >= 2` -> 2, each successful enqueue_one -> L - 1)
+        infeasible = _infeasible_slot_errors(F, b, RB, PB)
+        bad = None
+        for (src, st) in starts:
+            seen = set(b.reachable(start=st, cut_edges=infeasible))
+            hit = sorted(errs & seen)
+            if hit:
+                bad = (src, hit[0])
+                break
+        if bad:
+            ctx.bad(f"{fn}|mutation-before-err", f"PacketBuffer::{fn} can answer Err(Full) after it has already taken a metadata slot / payload space (the padding that wraps the ring "
+                    "around needs a second metadata slot): the refused call leaves a padding record behind, space is lost and is_empty() turns false although no packet is queued",
+                    body=b, bb=bad[1])
+        else:
+            ctx.ok((fn, 'refusal is effect-free'), sample=dict(fn=fn, err_after_mutation=False))
+
+
+def _infeasible_slot_errors(F, b, RB, PB):
+    """Break/Err edges of `metadata_ring.enqueue_one()?` that cannot be taken because a free metadata slot was established"""
+    def on_meta(node):
+        return any(l == f"F:{PB}.metadata_ring" for l in leafs(node))
+    nb = len(b.blocks)
+    IN = [None] * nb            # (L, guaranteed-flag of the last enqueue_one)
+    IN[0] = (0, False)
+    efacts = {}
+    for bi, bl in enumerate(b.blocks):
+        if bl['cl'] or bl['t'][0] != 'switch':
+            continue
+        for tb, lab, f in cond_facts(F, b, bi):
+            efacts.setdefault((bi, tb, lab), []).append(f)
+    work = [0]
+    cut = set()
+    while work:
+        bi = work.pop()
+        L, G = IN[bi]
+        bl = b.blocks[bi]
+        t = bl['t']
+        if t[0] == 'call':
+            nm = b.callee_name(t[1]) or ''
+            if nm.startswith(RB) and nm.rsplit('::', 1)[-1] == 'enqueue_one' and t[2] and on_meta(F.origin.operand(b, t[2][0], bi, len(bl['s']))):
+                G = L >= 1
+                L = max(L - 1, 0)
+        for tb, lab in b.succ_edges(bi):
+            l2, g2 = L, G
+            dead = False
+            for f in efacts.get((bi, tb, lab), ()):
+                if f[0] == 'bool' and f[2] is False and is_call(strip(f[1]), '::is_full') and on_meta(f[1]):
+                    l2 = max(l2, 1)
+                if f[0] == 'rel' and on_meta(f[2]) and is_call(strip(f[2]), '::window') and const_of(f[3]) is not None:
+                    c = const_of(f[3])
+                    if f[1] == 'Ge':
+                        l2 = max(l2, min(c, 2))
+                    elif f[1] == 'Gt':
+                        l2 = max(l2, min(c + 1, 2))
+                if f[0] == 'is' and f[2] in ('Break', 'Err') and g2 and any(l.startswith('C:' + RB) and l.endswith('::enqueue_one') for l in leafs(f[1])):
+                    dead = True
+            if dead:
+                cut.add((bi, tb, lab))
+                continue
+            new = (l2, g2)
+            old = IN[tb]
+            if old is None:
+                IN[tb] = new
+                work.append(tb)
+            else:
+                m = (min(old[0], new[0]), old[1] and new[1])
+                if m != old:
+                    IN[tb] = m
+                    work.append(tb)
+    return cut
